@@ -229,7 +229,26 @@ func (r *rwRT) ruleRangeDispatch() {
 				pt := obj.Type().(*types.Signature).Params()
 				okKind := pt.Len() == 1
 				if okKind {
-					switch u := pt.At(0).Type().Underlying().(type) {
+					// a parameter of type-parameter type stands for its core type (S ~string)
+					paramT := pt.At(0).Type()
+					under := paramT.Underlying()
+					_, isTP := paramT.(*types.TypeParam)
+					if isTP {
+						under = coreOfTypeParam(paramT.(*types.TypeParam))
+					}
+					// an operand of a defined type (type Name string, type Ints []int) is assignable to the parameter
+					// only if that is a type parameter or an unnamed type literal ([]V, map[K]V, <-chan V), never
+					// if it is a named type such as string itself
+					if k.named && !isTP {
+						switch paramT.(type) {
+						case *types.Slice, *types.Map, *types.Chan, *types.Array:
+						default:
+							if err == nil {
+								err = fmt.Errorf("a %s is passed to seq.%s, whose parameter has the named type %s: a value of a defined type is not assignable to it and the generated call does not build (e.g. `type Name string; for _, r := range name`)", k.name, k.ctor, paramT)
+							}
+						}
+					}
+					switch u := under.(type) {
 					case *types.Basic:
 						okKind = (strings.HasPrefix(k.name, "string") && u.Info()&types.IsString != 0) || (k.name == "integer" && u.Info()&types.IsInteger != 0)
 					case *types.Slice:
@@ -382,4 +401,33 @@ func (r *rwRT) ruleIterType() {
 		err = matchTmpl(o2.St, o2.St.Obj(fieldRef).Fields["Type"], nd("IndexExpr", map[string]Pat{"X": pSelect(nd("Ident", map[string]Pat{"Name": pStr{"seq"}}), "Iterator"), "Index": pLeaf{"T"}}))
 	}
 	c.check(err == nil, "RW.TMPL.ITERTYPE", "generator result type", pos2, "the result type becomes seq.Iterator[<element type>] — the same expression rewriteIter builds", fmt.Sprint(err))
+}
+
+// coreOfTypeParam: the single underlying type all terms of the type parameter's constraint share (S ~string -> string).
+func coreOfTypeParam(tp *types.TypeParam) types.Type {
+	iface, _ := tp.Constraint().Underlying().(*types.Interface)
+	if iface == nil {
+		return nil
+	}
+	var core types.Type
+	for i := 0; i < iface.NumEmbeddeds(); i++ {
+		var terms []*types.Term
+		switch e := iface.EmbeddedType(i).(type) {
+		case *types.Union:
+			for j := 0; j < e.Len(); j++ {
+				terms = append(terms, e.Term(j))
+			}
+		default:
+			terms = append(terms, types.NewTerm(false, e))
+		}
+		for _, t := range terms {
+			u := t.Type().Underlying()
+			if core == nil {
+				core = u
+			} else if !types.Identical(core, u) {
+				return nil
+			}
+		}
+	}
+	return core
 }
